@@ -78,7 +78,72 @@ class X:
         return self.Q[k]['pu']
 
 
+def expected_fields_sutra(Q):
+    """report of the reservoir-thermal-energy-storage (SUTRA) configuration, which has its own writer"""
+    x = X(Q)
+    E = {}
+
+    def put(section, label, value, unit, conv=''):
+        E[(section, label)] = Exp(value, unit, conv)
+
+    def stats(section, stem, key):
+        a = x.a(key)
+        for nm, val in (('Maximum', a.max()), ('Average', a.mean()), ('Minimum', a.min())):
+            put(section, f'{nm} {stem}', float(val), x.u(key))
+    S = 'SUMMARY OF RESULTS'
+    put(S, 'Direct-Use heat breakeven price', x.v('ec.LCOH'), x.u('ec.LCOH'))
+    flow = float(np.abs(x.a('wb.ProductionWellFlowRates')).mean())
+    for sec in (S, 'ENGINEERING PARAMETERS'):
+        put(sec, 'Number of Production Wells', x.v('wb.nprod'), '', 'int')
+        put(sec, 'Number of Injection Wells', x.v('wb.ninj'), '', 'int')
+        put(sec, 'Lifetime Average Well Flow Rate', flow, x.u('wb.ProductionWellFlowRates'))
+        put(sec, 'Well depth', x.v('rs.depth'), x.u('rs.depth'))
+    P = 'ECONOMIC PARAMETERS'
+    em = int(x.v('ec.econmodel'))
+    if em == 1:
+        put(P, 'Fixed Charge Rate (FCR)', x.v('ec.FCR'), x.u('ec.FCR'), 'x100')
+    if em == 2:
+        put(P, 'Interest Rate', x.v('ec.interest_rate'), x.u('ec.interest_rate'))
+    put(P, 'Accrued financing during construction', x.v('ec.inflrateconstruction'), x.u('ec.inflrateconstruction'), 'x100')
+    put(P, 'Project lifetime', int(x.v('sp.plant_lifetime')), x.u('sp.plant_lifetime'), 'int')
+    G = 'ENGINEERING PARAMETERS'
+    put(G, 'Pump efficiency', x.v('sp.pump_efficiency'), x.u('sp.pump_efficiency'))
+    put(G, 'Injection well casing ID', x.v('wb.injwelldiam'), x.u('wb.injwelldiam'))
+    put(G, 'Production well casing ID', x.v('wb.prodwelldiam'), x.u('wb.prodwelldiam'))
+    Z = 'RESERVOIR SIMULATION RESULTS'
+    stats(Z, 'Storage Well Temperature', 'wb.ProducedTemperature')
+    stats(Z, 'Balance Well Temperature', 'wb.Tinj')
+    stats(Z, 'Annual Heat Stored', 'rs.AnnualHeatStored')
+    stats(Z, 'Annual Heat Supplied', 'rs.AnnualHeatSupplied')
+    put(Z, 'Average Round-Trip Efficiency', float(x.a('rs.AnnualRTESEfficiency').mean()), x.u('rs.AnnualRTESEfficiency'))
+    put(Z, 'Total Average Pressure Drop', float(x.a('wb.DPOverall').mean()), x.u('wb.DPOverall'))
+    U = 'SURFACE EQUIPMENT SIMULATION RESULTS'
+    put(U, 'Average RTES Heating Production', float(x.a('sp.HeatProduced').mean()), x.u('sp.HeatProduced'))
+    put(U, 'Average Auxiliary Heating Production', float(x.a('sp.AuxiliaryHeatProduced').mean()), x.u('sp.AuxiliaryHeatProduced'))
+    put(U, 'Average Annual RTES Heating Production', float(x.a('sp.AnnualHeatProduced').mean()), x.u('sp.AnnualHeatProduced'))
+    put(U, 'Average Annual Auxiliary Heating Production', float(x.a('sp.AnnualAuxiliaryHeatProduced').mean()), x.u('sp.AnnualAuxiliaryHeatProduced'))
+    put(U, 'Average Annual Total Heating Production', float(x.a('sp.AnnualTotalHeatProduced').mean()), x.u('sp.AnnualTotalHeatProduced'))
+    put(U, 'Average Pumping Power', float(x.a('wb.PumpingPower').mean()), x.u('wb.PumpingPower'))
+    put(U, 'Average Annual Electricity Use for Pumping', float(x.a('sp.PumpingkWh').mean()), x.u('sp.PumpingkWh'))
+    K = 'CAPITAL COSTS (M$)'
+    nw = x.v('wb.nprod') + x.v('wb.ninj')
+    put(K, 'Drilling and Completion Costs', x.v('ec.Cwell'), x.u('ec.Cwell'))
+    put(K, 'Drilling and Completion Costs per Well', x.v('ec.Cwell') / nw, x.u('ec.Cwell'))
+    put(K, 'Drilling and completion costs per production well', x.v('ec.cost_one_production_well'), x.u('ec.cost_one_production_well'))
+    put(K, 'Drilling and completion costs per injection well', x.v('ec.cost_one_injection_well'), x.u('ec.cost_one_injection_well'))
+    put(K, 'Auxiliary Heater Cost', x.v('ec.peakingboilercost'), x.u('ec.peakingboilercost'))
+    put(K, 'Pump Cost', x.v('ec.Cpumps'), x.u('ec.peakingboilercost'))
+    put(K, 'Total Capital Costs', x.v('ec.CCap'), x.u('ec.CCap'))
+    O = 'OPERATING AND MAINTENANCE COSTS (M$/yr)'
+    put(O, 'Average annual auxiliary fuel cost', float(x.a('ec.annualngcost').mean()), x.u('ec.annualngcost'))
+    put(O, 'Average annual pumping cost', float(x.a('ec.annualpumpingcosts').mean()), x.u('ec.annualpumpingcosts'))
+    put(O, 'Total average annual O&M costs', float(x.a('ec.Coam').mean()), x.u('ec.Coam'))
+    return E
+
+
 def expected_fields(Q):
+    if Q['_classes'].get('ec') == 'SUTRAEconomics':
+        return expected_fields_sutra(Q)
     x = X(Q)
     E = {}
     eu = int(x.v('sp.enduse_option'))
@@ -302,10 +367,25 @@ def expected_fields(Q):
         put(A, 'Total Add-on Net Heat', x.v('ae.AddOnHeatGainedTotalPerYear'), x.u('ae.AddOnHeatGainedTotalPerYear'))
         put(A, 'Total Add-on Profit', x.v('ae.AddOnProfitGainedTotalPerYear'), x.u('ae.AddOnProfitGainedTotalPerYear'))
         put(A, 'AddOns Payback Period', x.v('ae.AddOnPaybackPeriod'), x.u('ae.AddOnPaybackPeriod'))
+    if 'sd' in Q['_classes']:
+        D = 'S-DAC-GT ECONOMICS'
+        put(D, 'LCOD using grid-based electricity only', x.v('sd.LCOD_elec'), x.u('sd.LCOD_elec'))
+        put(D, 'LCOD using natural gas only', x.v('sd.LCOD_ng'), x.u('sd.LCOD_ng'))
+        put(D, 'LCOD using geothermal energy only', x.v('sd.LCOD_geo'), x.u('sd.LCOD_geo'))
+        put(D, 'CO2 Intensity using grid-based electricity only', x.v('sd.CO2total_elec'), '', 'x100')
+        put(D, 'CO2 Intensity using natural gas only', x.v('sd.CO2total_ng'), '', 'x100')
+        put(D, 'CO2 Intensity using geothermal energy only', x.v('sd.CO2total_geo'), '', 'x100')
+        put(D, 'Geothermal LCOH', x.v('sd.LCOH'), x.u('sd.LCOH'))
+        put(D, 'Geothermal Ratio (electricity vs heat)', x.v('sd.percent_thermal_energy_going_to_heat'), '', 'x100')
+        put(D, 'Percent Energy Devoted To Process', x.v('sd.EnergySplit'), '', 'x100')
+        put(D, 'Total Tonnes of CO2 Captured', x.v('sd.CarbonExtractedTotal'), x.u('sd.CarbonExtractedTotal'))
+        put(D, 'Total Cost of Capture', float(x.a('sd.S_DAC_GTCummCashFlow')[-1]), x.u('sd.S_DAC_GTCummCashFlow'))
     return E
 
 
 def expected_tables(Q):
+    if Q['_classes'].get('ec') == 'SUTRAEconomics':
+        return {}
     x = X(Q)
     T = {}
     eu = int(x.v('sp.enduse_option'))
@@ -374,6 +454,10 @@ def expected_tables(Q):
             T['RESERVOIR POWER REQUIRED PROFILES'] = TableExp(L, 1, [('production pump power', at(pprod), x.u('wb.PumpingPowerProd')),
                                                                    ('injection pump power', at(pinj), x.u('wb.PumpingPowerInj')), ('total pump power', at(Pp), x.u('wb.PumpingPower'))],
                                                              'one row per simulated year')
+    if 'sd' in Q['_classes']:
+        T['S-DAC-GT PROFILE'] = TableExp(L, 1, [(k, [float(v) for v in x.a(k)], x.u(k)) for k in (
+            'sd.CarbonExtractedAnnually', 'sd.S_DAC_GTCummCarbonExtracted', 'sd.S_DAC_GTAnnualCost', 'sd.S_DAC_GTCummCashFlow', 'sd.CummCostPerTonne')],
+            'one row per simulated year')
     if 'ae' in Q['_classes'] and (x.v('ae.AddOnCAPEXTotal') + x.v('ae.AddOnOPEXTotalPerYear')) != 0:
         ep = [float(v) for v in x.a('ec.ElecPrice')]      # held zero-padded for construction years at the hook? (padding happens before the hook)
         hp = [float(v) for v in x.a('ec.HeatPrice')]
